@@ -128,9 +128,12 @@ def work(ec: EvoCase) -> Dict[str, Any]:
                         res["witness"] += 1
                         if bad is None:
                             res["witness_agree"] += 1
-                        elif not cexs:
-                            res["inconclusive"].append(f"{ec.name}.{cls}: native run disagrees with an unsat verdict: {bad}")
-                        continue
+                            continue
+                        elif cexs:
+                            continue
+                        # the REAL new encoder -> the REAL old decoder fail on this input although the symbolic run gave no
+                        # counterexample (it may have stopped early): the native failure is the evidence, report it
+                        bad += " (found by the native witness run, not by the solver)"
                     if bad is None:
                         res["inconclusive"].append(f"{ec.name}.{cls}: solver model did not reproduce natively")
                         continue
